@@ -62,6 +62,10 @@ func main() {
 	for _, turn := range []int{2, 3} {
 		scen = append(scen, netsim.Scenario{Cfg: netsim.Config{Name: fmt.Sprintf("solo-turn%d-arrival-orders", turn), Powers: one, SoloTurn: turn, Driver: "orders", TargetHeight: 1, MaxRound: 8, MaxSteps: 1500}, Bound: 0})
 	}
+	// the same with only two precommits from the others: the commit needs the node's own precommit
+	for _, turn := range []int{2, 3} {
+		scen = append(scen, netsim.Scenario{Cfg: netsim.Config{Name: fmt.Sprintf("solo-turn%d-arrival-orders-own-precommit-needed", turn), Powers: one, SoloTurn: turn, Driver: "orders-weak", TargetHeight: 1, MaxRound: 8, MaxSteps: 1500}, Bound: 0})
+	}
 	// a fresh network started from the shipped genesis file, every validator on the REAL node stack
 	scen = append(scen, netsim.Scenario{Cfg: mk("shipped-testnet-genesis", []int64{1, 1, 1}, netsim.Config{NoByzMenu: true, TargetHeight: 2,
 		Full: &netsim.FullSpec{Genesis: loadShipped("cmd/cfg/genesis_testnet.yaml", true), Keys: []int{3, 4, 5}}}), Bound: 1})
